@@ -151,3 +151,16 @@ func init() {
 		Trusted:     append(append([]string{}, baseTrusted...), "goyacc (x/tools v0.29.0) reproduces the rule numbering of the compiled grammar.go"),
 	})
 }
+
+func init() {
+	addProp(&PropSpec{
+		ID:          "C12",
+		Rules:       []string{"R-CMPMATRIX", "R-CMPTABLE", "R-PREDLOOP", "R-REGEXFLAGS", "R-TOWER"},
+		Explanation: "The comparison layer is a stack of finite decision procedures, each extracted and compared with the stated order: the type dispatch as a 13×13 matrix obtained by walking the dispatcher once per ordered pair of item types (abstract interpretation with singleton type sets, descending into the datetime 5×5 helpers), the operator×sign table, the boolean and numeric three-way helpers, the lax-existential/strict-universal pairwise loop, the like_regex flag translation for all 32 flag sets, and the numeric tower as sibling agreement of type switches.",
+		Decided: []string{"R-CMPMATRIX: which pairs are comparable / null rule / unknown / incomparable / guarded by WithTZ (169 cells)",
+			"R-CMPTABLE: ==,!=,<,>,<=,>= applied to a sign; false<true; −1/0/+1 for </=/> (antisymmetry and duality are properties of these tables)",
+			"R-PREDLOOP: lax existential vs strict universal decision table", "R-REGEXFLAGS: i,s,m,q translation and rejection of x", "R-TOWER: int64/float64/json.Number handled together"},
+		NotDecided:  []string{"numeric comparison across representations beyond 2^53 (D19: int64 vs float64 goes through float64)", "transitivity over concrete values", "string byte order (delegated to strings.Compare)", "datetime instants (types.*.Compare)"},
+		Assumptions: []string{"item values have one of the 13 documented dynamic types", "Go's regexp inline flags (?i)(?s)(?m) mean FoldCase, DotNL, ¬OneLine"},
+	})
+}
